@@ -18,7 +18,13 @@ Inductive ordering := Relaxed | Acquire | Release | AcqRel | SeqCst.
 Inductive winstr :=
 | WFetchAdd (d : N) (o : ordering)     (* lock.sequence.fetch_add(d, o)                     *)
 | WFence (o : ordering)                (* fence(o)                                           *)
-| WCallF.                              (* f(&mut *lock.data.get()) : k word stores, one per step *)
+| WCallF                               (* let result = catch_unwind(|| f(&mut *lock.data.get())) :
+                                          k word stores, one per step; the closure may PANIC after
+                                          some of them, the panic is caught                    *)
+| WResume.                             (* if let Err(e) = result { resume_unwind(e) } : when the
+                                          closure panicked the call of write ends HERE (the rest of
+                                          the program is skipped) and the caller gets the panic.
+                                          Thread-local: executed together with the preceding step *)
 
 (* steps of one iteration of the loop of SeqLockReader::read *)
 Inductive rinstr :=
@@ -38,9 +44,28 @@ Fixpoint upd (l : list N) (i : nat) (v : N) : list N :=
   | x :: r, S i' => x :: upd r i' v
   end.
 
-(* writer thread: program counter, word index inside WCallF, queue of values still to be
-   written (one per call of write), ghost count of completed write calls *)
-Record wthread := mkW { wpc : nat; wi : nat; wq : list (list N); wdone : nat }.
+(* one call of write: the value the closure stores, and its outcome: None = it returns,
+   Some j = it panics after having stored the first j words (the caller catches the panic
+   that write re-raises and goes on with its next call) *)
+Definition wcall := (list N * option nat)%type.
+
+(* number of words the closure of a call really stores *)
+Definition wlim (k : nat) (w : wcall) : nat :=
+  match snd w with None => k | Some j => Nat.min j k end.
+
+(* writer thread: program counter, word index inside WCallF, queue of calls of write still to
+   be made, ghost count of completed write calls, "the closure of this call panicked" *)
+Record wthread := mkW { wpc : nat; wi : nat; wq : list wcall; wdone : nat; wpan : bool }.
+
+(* where the call continues after the instruction at [p] (None = write returns), WResume
+   being executed on the way *)
+Definition wnext (prog : list winstr) (pan : bool) (p : nat) : option nat :=
+  let p1 := S p in
+  match nth_error prog p1 with
+  | Some WResume => if pan then None
+                    else if Nat.eqb (S p1) (length prog) then None else Some (S p1)
+  | _ => if Nat.eqb p1 (length prog) then None else Some p1
+  end.
 
 (* reader thread: pc, word index inside RCopyData, locals start/end/data, and ghost:
    [rbegun] = a call of read is in progress, [rc0] = number of write calls that had
@@ -55,20 +80,24 @@ Record event := mkE { e_rid : nat; e_c0 : nat; e_done : nat; e_start : N; e_val 
 Definition wmicro (k : nat) (prog : list winstr) (s : shm) (t : wthread) : shm * wthread :=
   match wq t with
   | [] => (s, t)                                    (* no call of write pending *)
-  | v :: q =>
-      let adv (s' : shm) :=
-        if Nat.eqb (S (wpc t)) (length prog)
-        then (s', mkW 0 0 q (S (wdone t)))           (* write returns *)
-        else (s', mkW (S (wpc t)) 0 (wq t) (wdone t)) in
+  | w :: q =>
+      let adv (s' : shm) (pan : bool) :=
+        match wnext prog pan (wpc t) with
+        | None => (s', mkW 0 0 q (S (wdone t)) false)         (* write returns / re-raises *)
+        | Some p => (s', mkW p 0 (wq t) (wdone t) pan)
+        end in
       match nth_error prog (wpc t) with
       | None => (s, t)
-      | Some (WFetchAdd d _) => adv (mkS (seq s + d) (mem s))
-      | Some (WFence _) => adv s
+      | Some (WFetchAdd d _) => adv (mkS (seq s + d) (mem s)) (wpan t)
+      | Some (WFence _) => adv s (wpan t)
+      | Some WResume => adv s (wpan t)        (* only when WResume is the first instruction *)
       | Some WCallF =>
-          let s' := mkS (seq s) (upd (mem s) (wi t) (nth (wi t) v 0)) in
-          if Nat.ltb (S (wi t)) k
-          then (s', mkW (wpc t) (S (wi t)) (wq t) (wdone t))
-          else adv s'
+          let lim := wlim k w in
+          let s' := if Nat.ltb (wi t) lim
+                    then mkS (seq s) (upd (mem s) (wi t) (nth (wi t) (fst w) 0)) else s in
+          if Nat.ltb (S (wi t)) lim
+          then (s', mkW (wpc t) (S (wi t)) (wq t) (wdone t) (wpan t))
+          else adv s' (match snd w with Some _ => true | None => false end)
       end
   end.
 
@@ -138,15 +167,26 @@ Definition step (k : nat) (wp : list winstr) (rp : list rinstr) (st : state) (t 
 Definition run (k : nat) (wp : list winstr) (rp : list rinstr) (st : state) (sched : list tid) : state :=
   fold_left (step k wp rp) sched st.
 
-Definition init_state (s0 : N) (init : list N) (wqs : list (list (list N))) (nr : nat) : state :=
-  mkSt (mkS s0 init) (map (fun q => mkW 0 0 q 0) wqs)
+Definition init_state (s0 : N) (init : list N) (wqs : list (list wcall)) (nr : nat) : state :=
+  mkSt (mkS s0 init) (map (fun q => mkW 0 0 q 0 false) wqs)
        (repeat (mkR 0 0 0 0 [] false 0) nr) [].
 
 (* ---- specification side ---- *)
 
-(* the c-th value of the cell: the initial one, then the writes in order *)
-Definition value (init : list N) (writes : list (list N)) (c : nat) : list N :=
-  nth c (init :: writes) [].
+(* the value a call of write leaves in the cell, [prev] being the value before it: all k words
+   of its value, or -- if its closure panics after j words -- those j words over the previous
+   value.  (What a panicking closure leaves behind is the closure's business: write publishes
+   it like any other value; the lock cannot undo a partial in-place update.) *)
+Definition weff (k : nat) (prev : list N) (w : wcall) : list N :=
+  firstn (wlim k w) (fst w) ++ skipn (wlim k w) prev.
+Fixpoint evals (k : nat) (prev : list N) (ws : list wcall) : list (list N) :=
+  match ws with
+  | [] => []
+  | w :: r => let e := weff k prev w in e :: evals k e r
+  end.
+(* the c-th value of the cell: the initial one, then the one left by each call in order *)
+Definition value (k : nat) (init : list N) (writes : list wcall) (c : nat) : list N :=
+  nth c (init :: evals k init writes) [].
 
 Fixpoint listN_eqb (x y : list N) : bool :=
   match x, y with
@@ -158,13 +198,13 @@ Fixpoint listN_eqb (x y : list N) : bool :=
 (* Pcheck of C42 on one read return (single writer): the returned words are exactly the
    c-th value for some c between "completed before the read's first sequence load" and
    "completed when the read returned" *)
-Definition ev_okb (init : list N) (writes : list (list N)) (e : event) : bool :=
-  existsb (fun c => Nat.leb (e_c0 e) c && listN_eqb (e_val e) (value init writes c))
+Definition ev_okb (k : nat) (init : list N) (writes : list wcall) (e : event) : bool :=
+  existsb (fun c => Nat.leb (e_c0 e) c && listN_eqb (e_val e) (value k init writes c))
           (List.seq O (S (e_done e))).
 
 (* several writers: only "some complete value" makes sense *)
-Definition ev_completeb (init : list N) (wqs : list (list (list N))) (e : event) : bool :=
-  existsb (listN_eqb (e_val e)) (init :: concat wqs).
+Definition ev_completeb (init : list N) (wqs : list (list wcall)) (e : event) : bool :=
+  existsb (listN_eqb (e_val e)) (init :: map fst (concat wqs)).
 
 (* ---- macro steps: what one grant of the harness scheduler executes ----
    A thread runs from one verif_hooks::point to the next; the positions of the points
